@@ -92,6 +92,9 @@ func Run(c *core.Ctx) {
 	// R9: what the restore routes consume from the parser (ExpireAt incl. the seconds*1000
 	// scaling, DB, RealMemberCount / NeedReadLen of chunked hashes) is bound as C01 requires
 	c01.EntryRules(c)
+	// R10: the remembered "database selected on this connection" of every connection entries
+	// are written to belongs to that connection alone and is kept in step with its SELECTs
+	selectedDbCaches(c, rre, big, ql)
 }
 
 // policyArm finds the cfg block of `case "<label>":` in a switch over
